@@ -173,6 +173,22 @@ theorem C13_old_replace_witness :
     (replaceMutOld [1, 2] [2, 3]).1 = [2, 3] ∧ foldStep [1, 2] (replaceMutOld [1, 2] [2, 3]).2 = [3] :=
   replaceMutOld_witness
 
+/-- Why the repaired `replace` takes a private snapshot of its argument before anything else: read
+live (three reads), `s.Replace(s)` on `{1,2}` empties the set and reports no change. -/
+theorem C13_replace_needs_snapshot_witness :
+    replaceMutLive [1, 2] [1, 2] [1, 2] [] = ([], ([], [])) ∧
+      foldStep [1, 2] (replaceMutLive [1, 2] [1, 2] [1, 2] []).2 = [1, 2] :=
+  replaceMutLive_self_witness
+
+/-- With the snapshot, `Replace` of the set by itself (or by a view of it) changes nothing and says so. -/
+theorem C13_replace_self (init s : List Nat) :
+    (setObj init).upd s (.replaceView id) = .change s (s.filter (fun x => !s.contains x), s.filter (fun x => !s.contains x)) ∧
+      sameSet (foldStep s (replaceMut s s).2) s = true := by
+  refine ⟨rfl, ?_⟩
+  rw [sameSet_iff]
+  intro x
+  exact (replaceMut_fold s s x).symm
+
 /-- **C13 set fold.** At quiescence, folding the mutations reported to a subscription that was never
 unsubscribed (starting from the empty set) reproduces the set's contents. -/
 theorem C13_set_fold (init : List Nat) {cfg : Cfg (Sh (List Nat) Mut) (Th (setObj init).WOp Mut)}
@@ -276,7 +292,8 @@ value mutex (id bump and `Values()` snapshot inside), then per callback `LockExe
 `Invoke` / `UnlockExecution`; `OnUpdate` does `PushBack` and `LockExecution` *before* releasing the
 value mutex and invokes afterwards, with the unlock deferred; unsubscribing is `Remove` then
 `MarkUnsubscribed`; `LockExecution` unlocks on its skip path, `MarkUnsubscribed` holds the execution
-mutex. -/
+mutex; `set.replace` reads its argument exactly once (`elements.ToSlice`, the private snapshot), under the
+value mutex and before the two filters and `value.Replace` (see `C13_replace_needs_snapshot_witness`). -/
 section Skel
 open Hive.Gen.C13Skel
 
@@ -322,8 +339,9 @@ theorem C13_skeleton_set_apply : skel_set_apply =
       "call s.updateCallbacks.Values", "return"] := by decide
 
 theorem C13_skeleton_set_replace : skel_set_replace =
-    ["lock s.readableSet.mutex", "defer unlock s.readableSet.mutex", "func{", "return", "}func", "func{", "return",
-      "}func", "helper Replace", "call s.uniqueUpdateID.Next", "call s.updateCallbacks.Values", "return"] := by decide
+    ["lock s.readableSet.mutex", "defer unlock s.readableSet.mutex", "call elements.ToSlice", "func{", "return", "}func",
+      "func{", "return", "}func", "helper Replace", "call s.uniqueUpdateID.Next", "call s.updateCallbacks.Values",
+      "return"] := by decide
 
 theorem C13_skeleton_set_OnUpdate : skel_readableSet_OnUpdate =
     ["lock r.mutex", "call r.updateCallbacks.PushBack", "call createdCallback.LockExecution",
